@@ -186,6 +186,12 @@ def pairing(ctx):
             par = f.par(st)
             while par is not None and par["k"] in ("ImplicitCastExpr", "ExprWithCleanups", "ParenExpr"):
                 par = f.par(par)
+            holder = None
+            if par is not None and par["k"] in CTORS and par.get("t", "").startswith("std::unique_ptr<"):
+                # the raw storage goes straight into an owning local: `std::unique_ptr<T, D> storage{allocate(...), d};`
+                holder = par
+                while par is not None and par["k"] != "DeclStmt":
+                    par = f.par(par)
             if par is not None and par["k"] == "DeclStmt":
                 tgt = "l:" + par["decls"][0]["name"]
             elif par is not None and par["k"] == "BinaryOperator" and par["op"] == "=":
@@ -200,7 +206,7 @@ def pairing(ctx):
                         ok = True
                         # exception safety of the construct
                         if f.name == "allocate_unique":
-                            ok2 = _construct_protected(f, c, tgt)
+                            ok2 = _construct_protected(f, c, tgt) or (holder is not None and _frees_only(ctx, f, holder))
                             ctx.ob(rid, ok2, f.loc(c), "allocate_unique: a throwing construct reaches deallocate + rethrow",
                                    "" if ok2 else "construct is not inside try { } catch (...) { deallocate(p); throw; }",
                                    fn=f.label, inst=f.qname)
@@ -211,6 +217,28 @@ def pairing(ctx):
                                    fn=f.label, inst=f.qname)
             ctx.ob(rid, ok, f.loc(st), "allocate is followed by construct of the same pointer (%s)" % tgt,
                    "" if ok else "no construct of %s on every path" % tgt, fn=f.label, inst=f.qname)
+
+
+def _frees_only(ctx, f, holder):
+    """the deleter of the unique_ptr that holds raw storage gives the storage back and does nothing else to it: its call
+    operator reaches deallocate and no destroy (the destroying deleter of the list's nodes must not run on storage in
+    which no object was constructed)"""
+    t = holder.get("t", "")
+    if "deallocator" in t:
+        return False
+    for g in f.unit.functions:
+        if g.name == "operator()" and (g.is_lambda or g.rec) and g.file == f.file:
+            rec_ok = (g.is_lambda and (ctx.fb and True)) or (g.rec and g.rec.split("::")[-1] in t)
+            if not rec_ok:
+                continue
+            if g.is_lambda:
+                from ..guards import top_function
+                if top_function(ctx.fb, g) is not f and getattr(top_function(ctx.fb, g), "id", None) != f.id:
+                    continue
+            names = [callee_fq(s).split("::")[-1] for s in g.stmts.values() if s["k"] == "CallExpr"]
+            if "deallocate" in names and "destroy" not in names:
+                return True
+    return False
 
 
 def _construct_protected(f, c, tgt):
